@@ -247,6 +247,9 @@ def document(input_file: str, settings: Settings):
                     if filename.endswith(".cmake"):
                         break
                 else:
+                    if not recursive:
+                        # Never walk into subdirectories without -r
+                        break
                     continue
 
             # Sort filenames and subdirs in alphabetical order
